@@ -28,10 +28,20 @@ def member (j : Json) : Except String (Str × Member) := do
 def group (j : Json) : Except String Group := do
   (← getArr j "members").mapM member
 
+/-- `str.isalpha` per character: ASCII letters, plus the non-ASCII code points the harness lists (computed by
+CPython for the alphabet in use) -/
+def alphaOf (j : Json) : Char → Bool :=
+  let extra : List Char := match j.getObjVal? "alpha" with
+    | .ok (Json.arr a) => a.toList.filterMap fun x => match x.getNat? with
+      | .ok n => some (Char.ofNat n)
+      | .error _ => none
+    | _ => []
+  fun c => if c.toNat < 128 then c.isAlpha else extra.contains c
+
 /-- same shape as `c03.find` answers, for the member that owns the namespace -/
-def findJson (g : Group) (text : Str) : Json :=
+def findJson (alpha : Char → Bool) (g : Group) (text : Str) : Json :=
   let ns := namespaceOf text
-  let extra := [("prefix_issue", jbool (prefixIssue ns))]
+  let extra := [("prefix_issue", jbool (prefixIssue alpha ns))]
   match Group.find g fc text with
   | .unmatched ns => jobj ([("err", Json.str "HED_LIBRARY_UNMATCHED"), ("ns", jstr ns)] ++ extra)
   | .res r =>
@@ -165,7 +175,7 @@ def handle (op : String) (j : Json) : Option (Except String Json) :=
       let texts ← strList j "texts"
       pure (jobj [("wellformed", jbool (wellFormed fc g)),
                   ("wf", jarr (g.map fun e => jbool (functionalTable e.2.vocab.table))),
-                  ("results", jarr (texts.map (findJson g)))])
+                  ("results", jarr (texts.map (findJson (alphaOf j) g)))])
   | "c13.attrs" => some do
       let g ← group j
       let anns ← (← getArr j "annotations").mapM fun a => do (← asArr a).mapM asStr
@@ -176,8 +186,8 @@ def handle (op : String) (j : Json) : Option (Except String Json) :=
                           ("unique", jarr ((uniqueIssues g fc longs).map jstr))]))])
   | "c13.prefix" => some do
       let ns ← getStr j "ns"
-      pure (jobj [("issue", jbool (prefixIssue ns)),
-                  ("set", match setPrefix ns with
+      pure (jobj [("issue", jbool (prefixIssue (alphaOf j) ns)),
+                  ("set", match setPrefix (alphaOf j) ns with
                     | .ok p => jstr p
                     | .error _ => Json.str "INVALID_LIBRARY_PREFIX")])
   | "c13.versions" => some do
